@@ -12,8 +12,12 @@
 EXTENDS Integers, FiniteSets, Sequences, TLC, Json
 
 CONSTANTS MaxGrid, MaxProc,
-          SharedSet   \* {FALSE}: own executor (procs = min(procs, grid/2)); TRUE: constructed on an
-                      \* existing executor, where init() uses the processor count as is
+          SharedSet,  \* {FALSE}: own executor (procs = min(procs, grid/2)); TRUE: constructed on an
+                      \* existing executor, where init() uses the machine's processor count as is
+          SerialRule  \* how execute() chooses the serial loop: "bins" = when init() made a single bin
+                      \* (the code after the fix recorded in known_findings.txt); "executor" = only
+                      \* when no executor exists, i.e. never for an executor supplied by the caller
+                      \* (the code before the fix: on a one-processor machine nothing is executed)
 VARIABLES g, p, shared
 vars == <<g, p, shared>>
 
@@ -21,11 +25,12 @@ Pow2(n) == IF n = 0 THEN 1 ELSE IF n = 1 THEN 2 ELSE IF n = 2 THEN 4 ELSE IF n =
            ELSE IF n = 4 THEN 16 ELSE IF n = 5 THEN 32 ELSE IF n = 6 THEN 64 ELSE 128
 MinI(a, b) == IF a < b THEN a ELSE b
 NP == IF shared THEN p ELSE MinI(p, g \div 2)  \* numProcessors = min(numProcessors, gridSize/2)
-Serial == NP < 2
+SmallInit == NP < 2                       \* init(): bins = 1, no squares
+Serial == IF SerialRule = "executor" THEN (~shared /\ SmallInit) ELSE SmallInit
 \* levels: 1; while (1<<levels < np) levels++; levels++
 Lv0 == CHOOSE k \in 1..7 : Pow2(k) >= NP /\ \A j \in 1..(k - 1) : Pow2(j) < NP
 Levels == Lv0 + 1
-Bins == IF Serial THEN 1 ELSE Pow2(Levels)
+Bins == IF SmallInit THEN 1 ELSE Pow2(Levels)
 BinStart(i) == IF i = Bins THEN g ELSE (2 * i * g + Bins) \div (2 * Bins)   \* floor(0.5 + i*g/bins)
 
 RECURSIVE AddSquare(_, _, _, _), AddTriangle(_, _, _, _)
@@ -38,8 +43,8 @@ AddTriangle(x, y, pass, level) ==
   THEN AddSquare(2*x, 2*y, 2*pass, level - 1) \cup AddTriangle(2*x, 2*y, 2*pass, level - 1)
        \cup AddTriangle(2*x + 1, 2*y + 1, 2*pass, level - 1)
   ELSE {}
-Squares == IF Serial THEN {} ELSE AddTriangle(0, 0, 0, Levels)
-NPass == IF Serial THEN 1 ELSE Bins          \* pass 0 = triangles, passes 1..bins-1 = squares
+Squares == IF SmallInit THEN {} ELSE AddTriangle(0, 0, 0, Levels)
+NPass == IF Serial \/ SmallInit THEN 1 ELSE Bins   \* pass 0 = triangles, passes 1..bins-1 = squares
 
 Range(a, b) == a..(b - 1)
 \* pairs executed by one task, per range type ("full", "half", "halfdiag")
